@@ -30,6 +30,26 @@ def probe_unwritable_keys():
         failed, text = C18_b._canon_one(i)
         if failed:
             bad.append(text)
+    # the names inside a {"META": {...}} request: written into META as they are spelled
+    import asyncio
+    import tempfile
+
+    from octave_mcp.core.parser import parse
+    from octave_mcp.mcp.write import WriteTool
+
+    for name in ("true", "null", "vs", "a b", "1", "$V", "K::V", "§1"):
+        with tempfile.TemporaryDirectory(prefix="vf_mk_") as d:
+            p = d + "/a.oct.md"
+            with open(p, "w", encoding="utf-8") as fh:
+                fh.write('===D===\nMETA:\n  TYPE::X\n---\nK::1\n===END===\n')
+            r = asyncio.run(WriteTool().execute(target_path=p, changes={"META": {name: 1, "LAST": 2}}))
+            if r.get("status") == "success":
+                try:
+                    back = parse(open(p, encoding="utf-8").read())
+                    if back.meta.get("LAST") != 2 or back.meta.get(name) != 1:
+                        bad.append(f'changes={{"META": {{{name!r}: 1, "LAST": 2}}}} reports success, the file reads back with META {dict(back.meta)!r}')
+                except Exception as e:  # noqa: BLE001
+                    bad.append(f'changes={{"META": {{{name!r}: 1, "LAST": 2}}}} reports success, the file is unreadable: {type(e).__name__}')
     return bool(bad), "; ".join(bad[:2])[:600] or "every request naming an unwritable key is refused (or its file is a fixed point)"
 
 
@@ -57,6 +77,7 @@ def ob_writable_keys(ctx: Ctx) -> Outcome:
         if need.replace("\\n", "\n") not in src:
             problems.append(f"_is_writable_key: `{need}` not found")
     ok = False
+    meta_inner = [False]
     for node in ast.walk(ex):
         for field in ("body", "orelse"):
             blk = getattr(node, field, None)
@@ -69,14 +90,38 @@ def ob_writable_keys(ctx: Ctx) -> Outcome:
                 st = blk[i]
                 if isinstance(st, ast.Assign) and "self._is_writable_key(k)" in ast.unparse(st.value) and "for k in changes" in ast.unparse(st.value) and i + 1 < len(blk):
                     nm = ast.unparse(st.targets[0])
-                    nxt = blk[i + 1]
-                    if isinstance(nxt, ast.If) and ast.unparse(nxt.test) == nm and isinstance(nxt.body[-1], ast.Return) and "_error_envelope" in ast.unparse(nxt.body[-1]):
-                        ok = True
+                    # between the list and its test only statements that can make the list LONGER (nm += ..., nm.extend /
+                    # append, under any condition) or that do not touch it
+                    j = i + 1
+                    while j < idx:
+                        nxt = blk[j]
+                        if isinstance(nxt, ast.If) and ast.unparse(nxt.test) == nm and isinstance(nxt.body[-1], ast.Return) and "_error_envelope" in ast.unparse(nxt.body[-1]):
+                            ok = True
+                            break
+                        shrinks = False
+                        for sub in ast.walk(nxt):
+                            if isinstance(sub, (ast.Assign, ast.AnnAssign, ast.Delete, ast.NamedExpr, ast.For, ast.With)):
+                                tg = sub.targets if isinstance(sub, (ast.Assign, ast.Delete)) else [getattr(sub, "target", None)] + ([it.optional_vars for it in sub.items] if isinstance(sub, ast.With) else [])
+                                if any(t is not None and any(isinstance(x, ast.Name) and x.id == nm for x in ast.walk(t)) for t in tg):
+                                    shrinks = True
+                            if isinstance(sub, ast.AugAssign) and ast.unparse(sub.target) == nm and not isinstance(sub.op, ast.Add):
+                                shrinks = True
+                            if isinstance(sub, ast.Call) and isinstance(sub.func, ast.Attribute) and ast.unparse(sub.func.value) == nm and sub.func.attr not in ("append", "extend"):
+                                shrinks = True
+                            if isinstance(sub, ast.Call) and ast.unparse(sub.func) == "self._apply_changes":
+                                shrinks = True
+                            if isinstance(sub, (ast.AugAssign,)) and ast.unparse(sub.target) == nm and "_is_writable_key(k)" in ast.unparse(sub.value) and "META" in ast.unparse(nxt) + "".join(ast.unparse(b) for b in blk[i + 1:j + 1]):
+                                meta_inner[0] = True
+                        if shrinks:
+                            break
+                        j += 1
     if not ok:
         problems.append("execute: self._apply_changes(doc, changes) is not dominated by `bad = [k for k in changes if ... not self._is_writable_key(k)]; if bad: return <error envelope>`")
+    if ok and not meta_inner[0]:
+        problems.append('execute: the field names INSIDE a {"META": {...}} request do not go through _is_writable_key before _apply_changes')
     if problems:
-        return shape_verdict("ast-shape", problems, probe_unwritable_keys, count=2, replay={"runner": "props.C18:probe_unwritable_keys", "args": {}})
-    return Outcome.ok("ast-shape", count=2)
+        return shape_verdict("ast-shape", problems, probe_unwritable_keys, count=3, replay={"runner": "props.C18:probe_unwritable_keys", "args": {}})
+    return Outcome.ok("ast-shape", count=3)
 
 
 def obligations(ctx: Ctx):
